@@ -127,7 +127,12 @@ impl Monitor for C02 {
         let max_steps = if long { 200_000 } else { self.max_steps };
         let mut xs = self.boot.clone();
         xs.set_binary_input(Xbitstr::from(input)).expect("input");
-        let _ = xs.set_stack_limit(Some(50_000));
+        // one case in six runs under a small stack limit: a push that is refused is a failed step like any other
+        let tight = !long && rng.chance(1, 6);
+        let _ = xs.set_stack_limit(Some(if tight { 2 + rng.below(10) } else { 50_000 }));
+        if tight {
+            obs.count("cases_with_small_stack_limit");
+        }
         match catch(|| xs.compile(&src)) {
             Err(_) => {
                 // a crash while building belongs to C08, not to reverse stepping
